@@ -245,6 +245,19 @@ func classifyDeath(log string) (clause, site string) {
 		}
 		if len(fnLines) > 0 {
 			site = SiteOf(strings.Join(fnLines, "\n"))
+			if clause == "stack-overflow" {
+				// the innermost frame of an overflowing recursion is arbitrary: use the
+				// smallest function name among the top frames as a stable key
+				if len(fnLines) > 64 {
+					fnLines = fnLines[:64]
+				}
+				site = ""
+				for _, ln := range fnLines {
+					if f := SiteOf(ln); f != "?" && (site == "" || f < site) {
+						site = f
+					}
+				}
+			}
 			break
 		}
 	}
